@@ -247,7 +247,10 @@ Section Proc.
       (* FIN bookkeeping: a payload that starts at RCV.NXT and ends at F is appended completely *)
       (forall f, off = 0 -> F = Some f -> c + rb_len (s_rx_buffer s) + l_len payload = f ->
                  rb_len (s_rx_buffer s') = rb_len (s_rx_buffer s) + l_len payload) /\
-      (l_len payload = 0 -> s' = s).
+      (l_len payload = 0 -> s' = s) /\
+      (forall i, 0 <= i < rb_cap (s_rx_buffer s) ->
+                 ~ (rb_len (s_rx_buffer s) + off <= i < rb_len (s_rx_buffer s) + off + l_len payload) ->
+                 rb_cell (s_rx_buffer s') i = rb_cell (s_rx_buffer s) i).
   Proof.
     intros Hb Hmono Hoff Hfit HW Hpay HFpay Hres.
     pose proof (l_len_nonneg payload) as Hl0.
@@ -257,14 +260,14 @@ Section Proc.
       repeat (split; [reflexivity|]). split; [eapply buf_inv_mono; eassumption|].
       split; [lia|]. split; [exact I|]. split.
       - left. repeat (split; [reflexivity|]). left. reflexivity.
-      - split; [intros f _ _ Hf; lia | reflexivity]. }
+      - split; [intros f _ _ Hf; lia|]. split; reflexivity. }
     fold asm_cap in Hres.
     destruct (asm_atrf asm_cap (s_assembler s) off (l_len payload)) as (a', [contig|]) eqn:Hat.
     2:{ subst res. exists s, None, 191. split; [reflexivity|].
         repeat (split; [reflexivity|]). split; [eapply buf_inv_mono; eassumption|].
         split; [lia|]. split; [exact I|]. split.
         - left. repeat (split; [reflexivity|]). left. reflexivity.
-        - split; [|reflexivity]. intros f Hoff0 Hf Heq. exfalso.
+        - split; [|split; reflexivity]. intros f Hoff0 Hf Heq. exfalso.
           pose proof Hb as (_ & _ & Hawf & Halen & _).
           pose proof (c15_atrf_offset0_never_fails asm_cap (s_assembler s) (l_len payload)
                         Hawf Halen asm_cap_pos Hl0) as Hnf.
@@ -273,7 +276,7 @@ Section Proc.
     destruct (rb_write_unallocated (s_rx_buffer s) off payload) as (rx1, n) eqn:Hw.
     destruct (payload_buf_inv S F have have' c (s_rx_buffer s) (s_assembler s) off payload a' contig rx1 n
                 Hb Hmono Hoff ltac:(lia) ltac:(lia) Hpay (HFpay ltac:(lia)) Hat Hw)
-      as (Hn & Hcontig & rx2 & He & Hb' & Hl2 & Hc2 & Hfront & Hpark & Hexact & Hfin).
+      as (Hn & Hcontig & rx2 & He & Hb' & Hl2 & Hc2 & Hfront & Hpark & Hexact & Hfin & Hcells).
     subst n. rewrite Z.eqb_refl in Hres. cbn [negb] in Hres.
     rewrite He in Hres. cbn [obind] in Hres.
     (* the delayed-ACK bookkeeping does not touch the view *)
@@ -303,7 +306,9 @@ Section Proc.
       split.
       + right. rewrite A5, A6, Hws3. split; [reflexivity|].
         unfold tcp_scaled_window. rewrite A2, A7. reflexivity.
-      + split; [|lia]. intros f Hoff0 Hf Heq. rewrite Hl2. rewrite (Hfin f Hoff0 Hf Heq). reflexivity.
+      + split; [|split; [lia|]].
+        * intros f Hoff0 Hf Heq. rewrite Hl2. rewrite (Hfin f Hoff0 Hf Heq). reflexivity.
+        * intros i Hi Hout. apply Hcells; assumption.
     - (* no ACK: the assembler was and is empty *)
       subst res. apply orb_false_elim in Hack. destruct Hack as (Hk1 & Hk2).
       apply negb_false_iff in Hk1. apply negb_false_iff in Hk2.
@@ -318,6 +323,8 @@ Section Proc.
         destruct (Z.eq_dec off 0) as [Hz|Hnz].
         * destruct (Hexact Hz Hae) as (Hce & _). right. split; [exact Hz | lia].
         * destruct (Hpark ltac:(lia) Hae) as (_ & Hne). congruence.
-      + split; [|lia]. intros f Hoff0 Hf Heq. rewrite Hl2. rewrite (Hfin f Hoff0 Hf Heq). reflexivity.
+      + split; [|split; [lia|]].
+        * intros f Hoff0 Hf Heq. rewrite Hl2. rewrite (Hfin f Hoff0 Hf Heq). reflexivity.
+        * intros i Hi Hout. apply Hcells; assumption.
   Qed.
 End Proc.
